@@ -602,36 +602,55 @@ pub fn png_unpredict(data: &[u8], colors: usize, bits: usize, columns: usize) ->
     Some(out)
 }
 
-/// decode the (structural) stream's data: no filter, or FlateDecode with optional PNG predictor
+/// decode the (structural) stream's data: no filter, FlateDecode with optional PNG predictor, or a chain of
+/// ASCII85Decode / FlateDecode filters whose parameters, when given as an array, are parallel to the filters
 pub fn decode_structural(d: &ADict, content: &[u8]) -> Result<Vec<u8>, StrictError> {
-    let filter = match dget(d, "Filter") {
+    let filters: Vec<Vec<u8>> = match dget(d, "Filter") {
         None | Some(AObj::Null) => return Ok(content.to_vec()),
-        Some(AObj::Name(n)) => n.0.clone(),
-        Some(AObj::Array(a)) if a.is_empty() => return Ok(content.to_vec()),
-        Some(AObj::Array(a)) if a.len() == 1 => match &a[0] {
-            AObj::Name(n) => n.0.clone(),
-            _ => return err(4, "Filter array element is not a name"),
-        },
+        Some(AObj::Name(n)) => vec![n.0.clone()],
+        Some(AObj::Array(a)) => {
+            let mut v = vec![];
+            for x in a {
+                match x {
+                    AObj::Name(n) => v.push(n.0.clone()),
+                    _ => return err(4, "Filter array element is not a name"),
+                }
+            }
+            v
+        }
         other => return err(4, format!("unsupported Filter {:?} on a structural stream", other)),
     };
-    if filter != b"FlateDecode" {
-        return err(4, format!("unsupported filter {:?} on a structural stream", String::from_utf8_lossy(&filter)));
-    }
-    let data = inflate(content).ok_or(StrictError { rule: 4, msg: "structural stream does not inflate".into() })?;
-    let parms = match dget(d, "DecodeParms") {
-        Some(AObj::Dict(p)) => Some(p.clone()),
-        Some(AObj::Array(a)) => a.iter().find_map(|x| if let AObj::Dict(p) = x { Some(p.clone()) } else { None }),
-        _ => None,
+    let parms_for = |i: usize| -> Option<ADict> {
+        match dget(d, "DecodeParms") {
+            Some(AObj::Dict(p)) if filters.len() == 1 => Some(p.clone()),
+            Some(AObj::Array(a)) => match a.get(i) {
+                Some(AObj::Dict(p)) => Some(p.clone()),
+                _ => None,
+            },
+            _ => None,
+        }
     };
-    if let Some(p) = parms {
-        let pred = dint(&p, "Predictor").unwrap_or(1);
-        if pred >= 10 {
-            let colors = dint(&p, "Colors").unwrap_or(1) as usize;
-            let bits = dint(&p, "BitsPerComponent").unwrap_or(8) as usize;
-            let columns = dint(&p, "Columns").unwrap_or(1) as usize;
-            return png_unpredict(&data, colors, bits, columns).ok_or(StrictError { rule: 4, msg: "PNG predictor data malformed".into() });
-        } else if pred != 1 {
-            return err(4, "TIFF predictor not supported by the strict reader");
+    let mut data = content.to_vec();
+    for (i, filter) in filters.iter().enumerate() {
+        match filter.as_slice() {
+            b"ASCII85Decode" => {
+                data = crate::refimpl::filt::ascii85::decode(&data).ok_or(StrictError { rule: 4, msg: "structural stream is not valid ASCII85".into() })?;
+            }
+            b"FlateDecode" => {
+                data = inflate(&data).ok_or(StrictError { rule: 4, msg: "structural stream does not inflate".into() })?;
+                if let Some(p) = parms_for(i) {
+                    let pred = dint(&p, "Predictor").unwrap_or(1);
+                    if pred >= 10 {
+                        let colors = dint(&p, "Colors").unwrap_or(1) as usize;
+                        let bits = dint(&p, "BitsPerComponent").unwrap_or(8) as usize;
+                        let columns = dint(&p, "Columns").unwrap_or(1) as usize;
+                        data = png_unpredict(&data, colors, bits, columns).ok_or(StrictError { rule: 4, msg: "PNG predictor data malformed".into() })?;
+                    } else if pred != 1 {
+                        return err(4, "TIFF predictor not supported by the strict reader");
+                    }
+                }
+            }
+            other => return err(4, format!("unsupported filter {:?} on a structural stream", String::from_utf8_lossy(other))),
         }
     }
     Ok(data)
